@@ -4,6 +4,8 @@ package absnfs
 
 import (
 	"fmt"
+	"io"
+	"log"
 	"os"
 	"syscall"
 	"testing"
@@ -70,6 +72,48 @@ func TestVerif_C22(t *testing.T) {
 	}
 	rec.Eval(inst)
 	rec.Distinct(fmt.Sprintf("verifier-instances|distinct=%v", len(seen) == inst))
+	// successive SERVER instances over one and the same AbsfsNFS (Export -> Unexport -> Export, or a
+	// new Server attached to the handler after the old one stopped): a restart the client must see
+	{
+		fs := refs.New()
+		fs.PlantFile("/f", nil, 0666, 0, 0)
+		n, err := New(fs, ExportOptions{})
+		if err == nil {
+			vfQuiet(n)
+			var prev *[8]byte
+			for round := 0; round < evid.Pick(6, 40); round++ {
+				s, err := NewServer(ServerOptions{Hostname: "127.0.0.1", UseRecordMarking: true})
+				if err != nil {
+					break
+				}
+				s.logger = log.New(io.Discard, "", 0)
+				s.SetHandler(n)
+				sv := &vfSrv{fs: fs, bfs: fs, nfs: n, srv: s, ph: &NFSProcedureHandler{server: s}}
+				c := sv.client()
+				root, _ := c.mnt("/")
+				l, _ := c.lookup(root, "f")
+				if l == nil || l.Status != 0 {
+					break
+				}
+				w, _ := c.write(vfFH(l.FH), 0, 2, []byte("v"))
+				cm, _ := c.commit(vfFH(l.FH), 0, 0)
+				rec.Eval(1)
+				if w != nil && w.Status == 0 {
+					if cm != nil && cm.Status == 0 && cm.Verf != w.Verf {
+						rec.Violate("C22/write-verifier-changed-during-instance-life", fmt.Sprintf("server instance %d of one handler: WRITE %x, COMMIT %x", round, w.Verf, cm.Verf), nil)
+					}
+					if prev != nil && *prev == w.Verf {
+						rec.Violate("C22/write-verifier-repeated-across-instances/same-handler", fmt.Sprintf("server instances %d and %d attached to the same AbsfsNFS both use verifier %x", round-1, round, w.Verf), nil)
+					}
+					v := w.Verf
+					prev = &v
+				}
+				s.Stop()
+			}
+			rec.Distinct("verifier-instances|same-handler")
+			n.Close()
+		}
+	}
 }
 
 type vfC22File struct {
